@@ -28,6 +28,8 @@ from .. import tlc
 from ..lik_c06 import (
     CFIT_KINDS,
     IMPL_KINDS,
+    INVARIANT_ONLY,
+    registered_custom_models,
     IMPLS_OF_SPEC,
     SPEC_KINDS,
     Factory,
@@ -65,8 +67,14 @@ class Real:
 
     def __init__(self, fac, core, impl, rng, mult=1, with_eff=True, jitter=False):
         self.core, self.impl, self.mult = core, impl, mult
-        self.spec_kind, opts = IMPL_KINDS[impl]
-        self.cfit = self.spec_kind in CFIT_KINDS
+        # the definition that applies (None: no documented formula, invariants only) and the configuration entries
+        if impl in IMPL_KINDS:
+            self.spec_kind, opts = IMPL_KINDS[impl]
+        elif impl in INVARIANT_ONLY:
+            self.spec_kind, opts = None, INVARIANT_ONLY[impl][1]
+        else:  # a registered custom model this file does not know: `data: {model: name}`, invariants only
+            self.spec_kind, opts = None, {"model": impl}
+        self.cfit = core["kind"] in CFIT_KINDS
         groups = core["groups"]
         self.G = len(groups)
         self.constr_spec = core["constr"]
@@ -157,6 +165,14 @@ class Real:
             if self.cfit:
                 nall = len(s["w"])
                 g.update(phi=s["phi"], eff_d=s["eff_d"], eff_m=s["eff_m"], b_d=s["b_d"], b_m=s["b_m"])
+            if self.spec_kind == "simple_pen":
+                # fit-fraction constraints of the configuration: |A_k|^2 of the named components at the MC events
+                cf = self.opts["constr_frac"]
+                fk = []
+                for name, v in cf.items():
+                    with self.amp.temp_used_res(v.get("res", name)):
+                        fk.append(self.amp(take(self.pool, s["m_idx"])).numpy())
+                g.update(fk_m=fk, pen=[(v["value"], v["sigma"]) for v in cf.values()])
             groups.append(g)
         constr = [(float(params[n]), mu, sg) for n, (mu, sg) in self.constr.items()]
         return groups, constr
@@ -363,7 +379,7 @@ def replay_all(ctx, fac, emitted, rng, quick, variants):
         by_stratum.setdefault(key, []).append(c)
     strata = sorted(by_stratum)
     per = 1 if quick else 6
-    budget = 14 if quick else 140
+    budget = 9 if quick else 125
 
     def size(c):
         return sum(len(g["dw"]) + g["nb"] + len(g["mv"]) for g in c["core"]["groups"])
@@ -386,9 +402,25 @@ def replay_all(ctx, fac, emitted, rng, quick, variants):
         chosen = [chosen[int(i * step)] for i in range(budget - len(cc))]
     chosen += cc
     rng.shuffle(chosen)
-    ctx.part("replay", strata=len(strata), chosen=len(chosen))
+    # every likelihood model that tf_pwa/model/custom.py registers (`data: {model: name}`), from the registry itself
+    custom, registry = registered_custom_models()
+    forced = []
+    for name in custom:
+        kind = IMPL_KINDS[name][0] if name in IMPL_KINDS else INVARIANT_ONLY.get(name, ("simple", None))[0]
+        cand = sorted([c for c in emitted if c["core"]["kind"] == kind], key=lambda c: (-size(c), json.dumps(c["core"], sort_keys=True)))
+        one = [c for c in cand if len(c["core"]["groups"]) == 1 and any(frac(w) < 0 for w in c["core"]["groups"][0]["dw"])]
+        two = [c for c in cand if len(c["core"]["groups"]) == 2]
+        picks = one[:1] + ([] if quick else two[:1] + one[7:8])
+        if not picks:
+            raise tlc.MachineryError("no scenario for the registered custom model %s" % name)
+        forced += [(name, c) for c in picks]
+    ctx.part("replay", strata=len(strata), chosen=len(chosen), registered_custom_models=custom, custom_scenarios=len(forced))
     stats = {"max_rel_dev": 0.0, "clip_skipped": 0, "scenarios": 0, "evaluations": 0, "scaled": 0, "ext_scaled_changed": 0, "sum_of_parts": 0}
     rot = {}
+    for name, c in forced:
+        k = rot.get(("impl", name), 0)
+        rot[("impl", name)] = k + 1
+        replay_core(ctx, fac, c["core"], name, rng, c["maxn"], 1, k % 2 == 0, variants, stats, quick)
     for ci, c in enumerate(chosen):
         core = c["core"]
         # implementation kinds of this spec kind; those that build caches (tf.function tracing per batch,
@@ -413,11 +445,12 @@ def known_key(impl, observer, kind_of_failure):
 
 
 def replay_core(ctx, fac, core, impl, rng, maxn, mult, with_eff, variants, stats, quick=False):
-    spec_kind = IMPL_KINDS[impl][0]
     try:
         real = Real(fac, core, impl, rng, mult=mult, with_eff=with_eff, jitter=(mult > 1))
     except tlc.MachineryError:
         raise
+    spec_kind = real.spec_kind
+    inv_only = spec_kind is None  # no documented formula: batch independence, fcn() == nll_grad()[0], sum of parts
     amp = real.amp
     p0 = {k: float(v) for k, v in amp.get_params().items()}
     free = list(amp.vm.trainable_vars)
@@ -440,8 +473,16 @@ def replay_core(ctx, fac, core, impl, rng, maxn, mult, with_eff, variants, stats
         if any(np.min(g["f_d"]) <= 1e-6 or np.min(g["f_m"]) <= 0 for g in groups):
             stats["clip_skipped"] += 1
             continue
-        exp = def_nll(spec_kind, groups, constr)
-        scale = term_scale(spec_kind, groups, constr)
+        if inv_only:
+            try:
+                exp = float(quiet(real.fcn(batches[-1]), p))  # the stand-alone NLL is the reference
+            except Exception as e:  # noqa: BLE001
+                ctx.violation(known_key(impl, "call", "raise"), {"error": repr(e)[:300], "core": core})
+                return
+            scale = term_scale("simple", groups, constr) + abs(exp)
+        else:
+            exp = def_nll(spec_kind, groups, constr)
+            scale = term_scale(spec_kind, groups, constr)
         if not math.isfinite(exp):
             stats["clip_skipped"] += 1
             continue
@@ -479,7 +520,7 @@ def replay_core(ctx, fac, core, impl, rng, maxn, mult, with_eff, variants, stats
                     stats["max_rel_dev"] = max(stats["max_rel_dev"], dev)
                     continue
                 # is it one of the two wrong evaluations the specification transcribes?
-                key = known_key(impl, obs, "def_mismatch:" + tag)
+                key = known_key(impl, obs, ("batch_dependence:" if inv_only else "def_mismatch:") + tag)
                 if real.cfit and with_eff:
                     if impl == "cfit_cached" and obs == "nll_grad" and close(got[obs], def_nll(spec_kind, groups, constr, variant="cached_noeff"), scale):
                         key = "cfit_cached:nll_grad:eff_value_not_in_integral"
@@ -509,7 +550,11 @@ def replay_core(ctx, fac, core, impl, rng, maxn, mult, with_eff, variants, stats
                 stats["scaled"] += 1
                 stats["evaluations"] += 2
                 ctx.count(2)
-                if spec_kind in ("extended", "cfit_ext"):
+                if inv_only:
+                    # no claim about rescaling without a documented formula; value with gradient = stand-alone NLL there too
+                    if not close(v1, g0, scale + abs(v1)):
+                        ctx.violation(known_key(impl, "nll_grad", "value_differs_from_call"), {"fcn": v1, "nll_grad[0]": g0, "core": core})
+                elif spec_kind in ("extended", "cfit_ext"):
                     stats["ext_scaled_changed"] += int(not close(v0, v1, scale))
                 else:
                     known_wrong = (impl == "cfit_cached" and with_eff and variants["cached"] == "noeff") or (impl == "simple_cfit" and with_eff and variants["simple_cfit"] == "noeff")
